@@ -22,9 +22,24 @@ def fam_timeouts():
   return out
 
 
+def fam_aborts():
+  """an operator abort arrives while the body of a phase with diagnosers runs: "phase diagnosers run
+  once per invocation that was neither skipped, repeated nor aborted"; in a teardown phase the single
+  abort does not reach the body and the diagnosers run as usual"""
+  from vf.progs import beh, opts, phase, program
+  out = []
+  for limit in (1, 2):
+    for pos in ('top', 'subtest', 'teardown'):
+      p = phase('p', beh('A', ('p', 'f')), o=opts(limit=limit), mk='scalar', ndiag=2)
+      p['beh'] = frozenset((b, m, d) for (b, m, _) in p['beh'] for d in (('a', 'b'), ('B', '0'), ('0', '!')))
+      q = phase('q', beh('C'))
+      out.append(program(dict(execlib._positions(p, q))[pos]))
+  return out
+
+
 def families(tier):
   fams = [('table', execlib.fam_table(tier)), ('options', execlib.fam_options(tier)),
-          ('timeouts', fam_timeouts())]
+          ('timeouts', fam_timeouts()), ('aborts', fam_aborts())]
   return fams
 
 
